@@ -22,6 +22,8 @@ CONSTANTS NW,        \* threads_max
           FlushActs, \* subset of {"FULL_FLUSH", "FULL_BARRIER"} the application may use
           HdrSz,     \* size of the Stream Header (1 unit in model checking, 12 bytes in traces)
           TailSz,    \* size of Index + Stream Footer (2 units in model checking)
+          MaxReinit, \* how often the application may re-initialise the handle without lzma_end()
+          FixLostWorker, \* BOOLEAN: hypothetical repair of the lost-worker defect (see AppReinit); FALSE = the code as it is
           CountCalls \* BOOLEAN: count lzma_code calls (history variable for bounding; FALSE for liveness checking)
 
 W == 1..NW
@@ -42,15 +44,17 @@ MInit == [pc |-> "out", act |-> "RUN", inAvail |-> 0, given |-> 0, outSpace |-> 
           closedAt |-> {},       \* input offsets at which a Block was closed before being full
           flushOffsets |-> {},   \* input offsets at which the application asked to end a Block / the Stream
           tailPos |-> 0, tailSz |-> TailSz,
-          lastProgress |-> 0, progressOk |-> TRUE, orderOk |-> TRUE, copyBad |-> FALSE]
+          lastProgress |-> 0, progressOk |-> TRUE, orderOk |-> TRUE, copyBad |-> FALSE, reinits |-> 0]
 CInit == [free |-> <<>>, threadErr |-> "OK", outq |-> <<>>, readPos |-> 0, sigM |-> FALSE, progressIn |-> 0]
 TInit == [state |-> "IDLE", inSize |-> 0, sig |-> FALSE, pc |-> "none", blk |-> 0, inPos |-> 0, snapIn |-> 0,
-          snapState |-> "IDLE", result |-> "IDLE", progressIn |-> 0, incompr |-> FALSE, waiterMain |-> FALSE]
+          snapState |-> "IDLE", result |-> "IDLE", progressIn |-> 0, incompr |-> FALSE, waiterMain |-> FALSE,
+          assigned |-> FALSE]     \* ghost: taken from the free stack / created, not yet returned to it
 
 Init == m = MInit /\ c = CInit /\ t = [w \in W |-> TInit]
 
 \* pthread_cond_signal(&thr[w].cond): worker w (and, in threads_stop(wait), the main thread) may be waiting on it
-SigW(tt, w) == [tt EXCEPT ![w].sig = (tt[w].pc \in {"park_top", "park_sync", "park_fin"}) \/ tt[w].sig]
+SigW(tt, w) == [tt EXCEPT ![w].sig = (tt[w].pc \in {"park_top", "park_sync", "park_fin"}) \/ tt[w].sig,
+                          ![w].waiterMain = (m.pc = "rwaitpark" /\ m.loopI + 1 = w) \/ tt[w].waiterMain]
 SigM(cc) == [cc EXCEPT !.sigM = (m.pc = "wpark") \/ cc.sigM]
 
 -----------------------------------------------------------------------------
@@ -132,17 +136,17 @@ EncIn ==
 GtPop ==
     /\ m.pc = "gtpop"
     /\ IF c.free # <<>>
-       THEN m' = [m EXCEPT !.thr = c.free[1], !.pc = "gtstart"] /\ c' = [c EXCEPT !.free = Tail(c.free)]
+       THEN /\ m' = [m EXCEPT !.thr = c.free[1], !.pc = "gtstart"] /\ c' = [c EXCEPT !.free = Tail(c.free)]
+            /\ t' = [t EXCEPT ![c.free[1]].assigned = TRUE]
        ELSE /\ m' = IF m.nInit = NW THEN [m EXCEPT !.pc = "decide"] ELSE [m EXCEPT !.pc = "gtcreate"]
-            /\ UNCHANGED c
-    /\ UNCHANGED t
+            /\ UNCHANGED <<c, t>>
 
 \* initialize_new_thread(): allocate thr->in, mythread_create
 GtCreate ==
     /\ m.pc = "gtcreate"
     /\ LET w == m.nInit + 1 IN
        /\ m' = [m EXCEPT !.thr = w, !.nInit = w, !.pc = "gtstart"]
-       /\ t' = [t EXCEPT ![w] = [TInit EXCEPT !.pc = "top"]]
+       /\ t' = [t EXCEPT ![w] = [TInit EXCEPT !.pc = "top", !.assigned = TRUE]]
     /\ UNCHANGED c
 
 \* get_thread(): thr.mutex: state := RUN, in_size := 0, lzma_outq_get_buf, signal
@@ -221,6 +225,35 @@ StopStep ==
        ELSE /\ m' = Ret(m, m.rwRet) /\ UNCHANGED t
     /\ UNCHANGED c
 
+\* The application gives the same lzma_stream to lzma_stream_encoder_mt() again (same thread count) without
+\* lzma_end(): stream_encoder_mt_init() calls threads_stop(coder, true): STOP + signal each thread, then wait on each
+\* thr.cond until its state is IDLE; then the queue, the Index, thread_error, coder->thr and the progress counters are
+\* reset.  The stack of free threads is NOT rebuilt: a worker returns itself to it after worker_encode().
+AppReinit ==
+    /\ m.pc = "out" /\ m.reinits < MaxReinit
+    /\ m' = [m EXCEPT !.pc = "rstop", !.loopI = 0, !.reinits = @ + 1]
+    /\ UNCHANGED <<c, t>>
+RStop ==
+    /\ m.pc = "rstop"
+    /\ IF m.loopI < m.nInit
+       THEN /\ t' = SigW([t EXCEPT ![m.loopI + 1].state = "STOP"], m.loopI + 1) /\ m' = [m EXCEPT !.loopI = @ + 1]
+       ELSE /\ m' = [m EXCEPT !.pc = "rwait", !.loopI = 0] /\ UNCHANGED t
+    /\ UNCHANGED c
+\* thr.mutex of thread loopI+1: wait while its state is not IDLE
+RWait ==
+    /\ m.pc = "rwait"
+    /\ IF m.loopI < m.nInit
+       THEN IF t[m.loopI + 1].state # "IDLE"
+            THEN m' = [m EXCEPT !.pc = "rwaitpark"] /\ UNCHANGED <<c, t>>
+            ELSE m' = [m EXCEPT !.loopI = @ + 1] /\ UNCHANGED <<c, t>>
+       ELSE /\ m' = [MInit EXCEPT !.nInit = m.nInit, !.calls = m.calls, !.reinits = m.reinits,
+                                  !.orderOk = m.orderOk, !.progressOk = m.progressOk]
+            /\ c' = [c EXCEPT !.outq = <<>>, !.readPos = 0, !.threadErr = "OK", !.progressIn = 0, !.sigM = FALSE]
+            /\ UNCHANGED t
+RWaitWake ==
+    /\ m.pc = "rwaitpark" /\ (t[m.loopI + 1].waiterMain \/ Spurious)
+    /\ m' = [m EXCEPT !.pc = "rwait"] /\ t' = [t EXCEPT ![m.loopI + 1].waiterMain = FALSE] /\ UNCHANGED c
+
 \* lzma_end(): threads_end(): EXIT + signal each, then join each
 AppEnd == /\ m.pc = "out" /\ m' = [m EXCEPT !.pc = "endsig", !.loopI = 0] /\ UNCHANGED <<c, t>>
 EndSignal ==
@@ -248,11 +281,18 @@ GetProgress ==
 (* worker_start() / worker_encode()                                           *)
 
 \* worker_start: thr.mutex: STOP -> IDLE (+signal), wait while IDLE
+\* A worker that was given a Block (GtStart) but sees STOP here before it ever saw RUN goes back to sleep without
+\* returning itself to the stack of free threads (defect of the pinned tree, see known_findings.json).
+\* FixLostWorker = TRUE models a repair: such a worker takes the same exit path as after worker_encode().
 WTop(w) ==
     /\ t[w].pc = "top"
-    /\ LET st == IF t[w].state = "STOP" THEN "IDLE" ELSE t[w].state
-           t1 == IF t[w].state = "STOP" THEN SigW([t EXCEPT ![w].state = "IDLE"], w) ELSE t
-       IN t' = [t1 EXCEPT ![w].pc = IF st = "IDLE" THEN "park_top" ELSE IF st = "EXIT" THEN "exited" ELSE "encinit",
+    /\ LET wasStop == t[w].state = "STOP"
+           st == IF wasStop THEN "IDLE" ELSE t[w].state
+           t1 == IF wasStop THEN SigW([t EXCEPT ![w].state = "IDLE"], w) ELSE t
+           assigned == t[w].assigned
+       IN t' = [t1 EXCEPT ![w].pc = IF wasStop /\ assigned /\ FixLostWorker THEN "finthr"
+                                   ELSE IF st = "IDLE" THEN "park_top" ELSE IF st = "EXIT" THEN "exited" ELSE "encinit",
+                          ![w].result = IF wasStop /\ assigned /\ FixLostWorker THEN "STOP" ELSE @,
                           ![w].snapState = st]
     /\ UNCHANGED <<m, c>>
 
@@ -331,7 +371,7 @@ WFinCoderTo(w, osz) ==
                  ELSE c.outq
        IN c' = SigM([c EXCEPT !.outq = q1, !.free = <<w>> \o c.free,
                               !.progressIn = @ + (IF ok THEN t[w].snapIn ELSE 0)])
-    /\ t' = [t EXCEPT ![w].progressIn = 0, ![w].pc = "top"]
+    /\ t' = [t EXCEPT ![w].progressIn = 0, ![w].pc = "top", ![w].assigned = FALSE]
     /\ UNCHANGED m
 
 WFinCoder(w) == WFinCoderTo(w, t[w].snapIn + 1)
@@ -340,10 +380,10 @@ Worker(w) == WTop(w) \/ WWake(w) \/ (\E f \in (IF MayFail THEN BOOLEAN ELSE {FAL
              \/ WEncSync(w) \/ WEncCode(w) \/ WEncWaitFin(w) \/ WAfter(w) \/ WFinThr(w) \/ WFinCoder(w)
 
 Main == Run \/ BlkRead \/ EncIn \/ GtPop \/ GtCreate \/ GtStart \/ Copy \/ Publish \/ BlkErr \/ Decide \/ Wait \/ WaitWake
-        \/ WaitTimeout \/ StopStep \/ EndSignal \/ EndJoin
+        \/ WaitTimeout \/ StopStep \/ EndSignal \/ EndJoin \/ RStop \/ RWait \/ RWaitWake
 
 App == \/ \E a \in {"RUN", "FINISH"} \cup FlushActs, g \in Gives, s \in Spaces : Call(a, Min(g, Total - m.given), s)
-       \/ AppEnd \/ GetProgress
+       \/ AppEnd \/ AppReinit \/ GetProgress
 
 Terminated == m.pc = "freed"
 Next == Main \/ (\E w \in W : Worker(w)) \/ App \/ (Terminated /\ UNCHANGED vars)
